@@ -50,10 +50,8 @@ static int  vf_nfreed;
 
 static void vf_reset(void)
 {
-	int i;
-	for (i = 0; i < vf_used; i++) {
-		if (vf_tab[i].live) free(vf_tab[i].p);
-	}
+	/* blocks are forgotten, not released: process-global tables of the library
+	 * (type registry ...) are allocated through the seam as well */
 	vf_used = 0;
 	vf_serial = 0;
 	vf_allocs = vf_frees = vf_badfree = 0;
@@ -97,6 +95,19 @@ static long vf_live(void)
 	int i;
 	for (i = 0; i < vf_used; i++) if (vf_tab[i].live) n++;
 	return n;
+}
+/* live blocks with tag 0; vf_tag_all() marks everything allocated so far (warm-up, global tables) */
+static long vf_live_untagged(void)
+{
+	long n = 0;
+	int i;
+	for (i = 0; i < vf_used; i++) if (vf_tab[i].live && !vf_tab[i].tag) n++;
+	return n;
+}
+static void vf_tag_all(int tag)
+{
+	int i;
+	for (i = 0; i < vf_used; i++) if (vf_tab[i].live) vf_tab[i].tag = tag;
 }
 static struct vf_blk *vf_record(void *p, size_t n)
 {
